@@ -9,6 +9,7 @@ SPEC = {
             "(both alpha modes, 4 colours; widths 16/32/64 too in the thorough tier); blit family (blit, mask_blit, mask_blit_dst, "
             "mask_blit with mask image, blend_blit x2, custom_blit x2) over x,sx,y,sy in [-3,size+3], w,h in [-1,max+3] on canvases "
             "{0,1,2,3}^4 (thorough: every tuple once, kinds/alpha-mode pairs in rotation, plus self blits; quick: 1/64 random sample); "
+            "draw_text formatted lengths 0..40, 120..136, 250..260, 510..516, 1020..1030, 4090..4100 x 4 format variants (%s, %*s, literal%d%s, %-*s|) x 5 overloads, fully visible (wrapped) / tail visible / fully clipped, plus one-call-vs-chunks comparison; "
             "dashed h/v lines: ends in [-3,len+3], row/column in [-1,other], dash in {0,1,2,3,5,-2} on lengths {0,1,2,3,5,8}; draw_line all in-canvas endpoint pairs of 13x11, 1x1, 1x9, 9x1, 4x7 (+16x16, 7x19 thorough) and sampled outside ends; "
             "direct pixel access on every coordinate in [-3,size+3]^2 plus +-2^31, +-2^63; random: canvases to 64x64, "
             "coordinates up to +-2^31, all 8 formats, op sequences of length <= 30 with the shadow carried along, including ACROSS "
@@ -38,6 +39,9 @@ SPEC = {
         "set_has_alpha:add:w16", "copy:w16", "copy:w64", "read_probe:16n", "read_probe:64n", "invert:fmt:16", "blend_blit:fmt:32",
         "invert:own-maxval:8", "invert:own-maxval:16", "invert:own-maxval:64", "blend_blit:own-maxval:8", "blit:own-maxval:16",
         "set_has_alpha:add:w8:own-maxval", "set_has_alpha:add:w32:own-maxval", "copy:w16:own-maxval",
+        "draw_text:len250-260:var0", "draw_text:len250-260:var1", "draw_text:len4090-4100:var2", "draw_text:len1020-1030:var3",
+        "draw_text:len>=250:overload0", "draw_text:len>=250:overload1", "draw_text:len>=250:overload2", "draw_text:len>=250:overload3",
+        "draw_text:len>=250:overload4", "draw_text:len>=250:layout0", "draw_text:len>=250:layout1", "draw_text:len>=250:layout2",
         "identity:widen:8->64", "identity:64a:*", "identity:8n:empty", "pixel:oob:read_pixel:*", "pixel:oob:write_pixel32:*",
         "pixel:in:write_pixel:64a", "mask_blit_img:mask-too-small",
     ],
